@@ -26,6 +26,9 @@ TRUSTED = [
     'np.gradient, np.cumsum, % and np.unwrap are modelled exactly (Phase.gradient, cumsumFrom, wrap, unwrap) and compared '
     'with numpy on every run (streams conversions, wrap_phase, np_unwrap_model)',
     'bit-exact invariance under 2^k rescaling is a float64 fact: instance check only (the theorem is the exact-arithmetic law)',
+    'the scale-invariance clauses for nht/quad are evaluated on oscillatory columns only: a column without extrema is not an IMF, '
+    'amplitude_normalise has no envelope to divide by and returns it unchanged (C09.amplitudeNormalise_no_envelope); such inputs '
+    'are still run for shape / range / derivative consistency and tagged non-oscillatory',
     'a 1-D input of n samples is returned as (n, 1) arrays (documented ensure_2d behaviour); "the input\'s shape" is read as '
     'the input\'s 2-D shape',
 ]
@@ -39,6 +42,7 @@ ASSUMPTIONS = [
 RULE = ('wrap_phase: dyadic / random / huge / tiny-negative / exact-multiple inputs x ncycles 1-3 x both modes (+ invalid mode); '
         'conversions: freq_from_phase, phase_from_freq, np.gradient on dyadic and random arrays, n 0-300, 1-3 columns, 1-D and 2-D; '
         'freq_phase_roundtrip: constant / piecewise-constant / smooth random / chirp profiles; '
+        'phase_from_complex_signal: 4 phase-jump conventions x wrapped/unwrapped x smoothing on/off on scipy analytic signals; '
         'frequency_transform: sine, chirp, AM-FM, two-tone, white and smoothed noise, sifted IMFs, degenerate (constant, ramp, '
         'zeros, n<2) x {hilbert,nht,quad} x 1-3 columns x sample rates x 2^k and random positive rescaling; '
         'sinusoid_recovery: sr in 7 values, n 512-4096, f log-uniform from 4 cycles per record to sr/12, amplitude log-uniform '
@@ -80,7 +84,7 @@ class Wrap(Stream):
         ]
 
     def generate(self, rng, tier):
-        n_cases = 1200 if tier == 'thorough' else 150
+        n_cases = 1500 if tier == 'thorough' else 250
         for _ in range(n_cases):
             n = rng.choice([1, 2, 5, 17, 64])
             fam = rng.choice(['dyadic', 'normal', 'huge', 'unwrapped', 'multiples', 'tiny'])
@@ -218,7 +222,7 @@ class Conversions(Stream):
         ]
 
     def generate(self, rng, tier):
-        n_cases = 1500 if tier == 'thorough' else 180
+        n_cases = 2000 if tier == 'thorough' else 300
         for _ in range(n_cases):
             fn = rng.choice(['ffp', 'pff', 'grad'])
             ncol = rng.choice([1, 1, 2, 3])
@@ -368,7 +372,7 @@ class Roundtrip(Stream):
         ]
 
     def generate(self, rng, tier):
-        n_cases = 800 if tier == 'thorough' else 90
+        n_cases = 1000 if tier == 'thorough' else 150
         for _ in range(n_cases):
             n = rng.choice([2, 3, 4, 10, 64, 257, 1000])
             sr = rng.choice([64.0, 128.0, 500.0, 1000.0, rng.uniform(10, 4000)])
@@ -508,6 +512,17 @@ def _rand_col(rng, n, sr, kinds):
     raise ValueError(k)
 
 
+def _maybe_int(rng, spec, p=0.1):
+    """With probability p turn the record into an integer-typed one (large amplitudes, rounded samples)."""
+    if rng.random() < p:
+        for c in spec['cols']:
+            c['a'] = 10 ** rng.uniform(2.5, 4.5)
+            if 'a2' in c:
+                c['a2'] = c['a'] * rng.uniform(0.05, 0.6)
+        spec['dtype'] = 'int'
+    return spec
+
+
 class FreqTransform(Stream):
     """frequency_transform: correspondence around the analytic-signal oracle + the property's
     shape / range / derivative / scale-invariance clauses on the outputs."""
@@ -526,12 +541,15 @@ class FreqTransform(Stream):
             # degenerate inputs: no oscillation -> no envelope (nht/quad amplitude is NaN), tiny records
             for x in ([0.0] * 16, [1.0] * 16, [i / 16 for i in range(16)], [1.0, -1.0], [0.0, 1.0, 0.0], [1.0], []):
                 cs.append({'spec': {'n': len(x), 'sr': 10.0, 'cols': [{'kind': 'data', 'x': x}]}, 'method': m, 'k': 1, 'c': 3.0, 'vector': True})
+        for m in P.METHODS:   # integer-typed input (witness of the integer-truncation defect of nht/quad on the pinned tree)
+            cs.append({'spec': {'n': 1024, 'sr': 256.0, 'dtype': 'int', 'cols': [{'kind': 'sine', 'f': 10.0, 'a': 1000.0, 'ph': 0.3}]},
+                       'method': m, 'k': 2, 'c': 3.0, 'vector': True})
         cs.append({'spec': {'n': 64, 'sr': 10.0, 'cols': [{'kind': 'sine', 'f': 0.5, 'a': 1.0, 'ph': 0.0}]}, 'method': 'direct_quad', 'k': 1, 'c': 2.0, 'vector': True})
         cs.append({'spec': {'n': 64, 'sr': 10.0, 'cols': [{'kind': 'sine', 'f': 0.5, 'a': 1.0, 'ph': 0.0}]}, 'method': 'hilbrt', 'k': 1, 'c': 2.0, 'vector': True})
         return cs
 
     def generate(self, rng, tier):
-        n_cases = 900 if tier == 'thorough' else 120
+        n_cases = 1500 if tier == 'thorough' else 240
         for i in range(n_cases):
             sr = rng.choice([64.0, 128.0, 256.0, 500.0, 1000.0, 1024.0])
             n = rng.choice([64, 128, 200, 333, 400]) if rng.random() < 0.6 else rng.choice([512, 1000, 2048])
@@ -540,8 +558,11 @@ class FreqTransform(Stream):
             spec = {'n': n, 'sr': sr, 'cols': [_rand_col(rng, n, sr, kinds) for _ in range(ncol)]}
             if rng.random() < 0.08:
                 spec = self._sifted(rng, n, sr)
+            else:                          # integer-typed IMF array (e.g. raw ADC counts): large amplitudes, rounded
+                spec = _maybe_int(rng, spec)
             yield {'spec': spec, 'method': P.METHODS[i % 3], 'k': rng.choice([-20, -9, -3, -1, 1, 2, 3, 10, 20]),
-                   'c': 10 ** rng.uniform(-3, 3), 'vector': ncol == 1 and rng.random() < 0.4}
+                   'c': 10 ** rng.uniform(-3, 3), 'vector': ncol == 1 and rng.random() < 0.4,
+                   'smooth': rng.choice(['default', 'default', 'default', None, 9])}
 
     @staticmethod
     def _sifted(rng, n, sr):
@@ -557,7 +578,7 @@ class FreqTransform(Stream):
 
     @staticmethod
     def _x(case):
-        x = P.synth(case['spec'])
+        x = P.typed(case['spec'])
         if case['vector'] and x.shape[1] == 1:
             return x[:, 0]
         return x
@@ -568,23 +589,24 @@ class FreqTransform(Stream):
         x0 = x.copy()
         x.setflags(write=False)
         sr, m = case['spec']['sr'], case['method']
-        ip, iff, ia = emd.spectra.frequency_transform(x, sr, m)
+        kw = {} if case.get('smooth', 'default') == 'default' else {'smooth_phase': case['smooth']}
+        ip, iff, ia = emd.spectra.frequency_transform(x, sr, m, **kw)
         out = {'shapes': [list(np.shape(ip)), list(np.shape(iff)), list(np.shape(ia))],
                'ip': [P.tolist(c) for c in P.cols(ip)], 'if': [P.tolist(c) for c in P.cols(iff)], 'ia': [P.tolist(c) for c in P.cols(ia)],
                'dtypes': [str(np.asarray(a).dtype) for a in (ip, iff, ia)]}
         s = 2.0 ** case['k']
-        ip2, if2, ia2 = emd.spectra.frequency_transform(x0 * s, sr, m)
+        ip2, if2, ia2 = emd.spectra.frequency_transform(x0 * s, sr, m, **kw)
         out['pow2'] = {'ip_eq': bool(np.array_equal(ip2, ip, equal_nan=True)), 'if_eq': bool(np.array_equal(if2, iff, equal_nan=True)),
                        'ia_eq': bool(np.array_equal(ia2, ia * s, equal_nan=True)),
                        'ip_diff': float(np.nanmax(P.circ(ip2 - ip))) if ip.size else 0.0,
                        'if_diff': float(np.nanmax(np.abs(if2 - iff))) if ip.size else 0.0}
         c = case['c']
-        ip3, if3, ia3 = emd.spectra.frequency_transform(x0 * c, sr, m)
+        ip3, if3, ia3 = emd.spectra.frequency_transform(x0 * c, sr, m, **kw)
         with np.errstate(all='ignore'):
             fin = np.isfinite(ia)
             out['rand'] = {'ip': float(np.max(P.circ(ip3 - ip))) if ip.size else 0.0,
                            'if': float(np.max(np.abs(if3 - iff))) if ip.size else 0.0,
-                           'ia': float(np.max(np.abs(ia3[fin] - c * ia[fin]) / np.maximum(np.abs(c * ia[fin]), 1e-300))) if fin.any() else 0.0,
+                           'ia': float(np.max(np.abs(ia3[fin] - c * ia[fin])) / max(float(np.max(np.abs(c * ia[fin]))), 1e-300)) if fin.any() else 0.0,
                            'nan_same': bool(np.array_equal(np.isnan(ia3), np.isnan(ia)))}
         return out
 
@@ -602,7 +624,7 @@ class FreqTransform(Stream):
             return [proto.op('FT', {'halfpi': P.HALF_PI, 'twopi': TP, 'sr': case['spec']['sr']}, [list(x[:, 0]), [0.0] * n, [0.0] * n])]
         if _err(out) or n > self.NMAX_MODEL:
             return []
-        U, A = P.oracle_tables(x, case['method'])
+        U, A = P.oracle_tables(x, case['method'], 5 if case.get('smooth', 'default') == 'default' else case['smooth'])
         ops = []
         for j in range(x.shape[1]):
             a = A[:, j]
@@ -625,7 +647,7 @@ class FreqTransform(Stream):
         if not results:
             return None
         x = P.synth(case['spec'])
-        U, A = P.oracle_tables(x, case['method'])
+        U, A = P.oracle_tables(x, case['method'], 5 if case.get('smooth', 'default') == 'default' else case['smooth'])
         sr = case['spec']['sr']
         for j, r in enumerate(results):
             if not r.ok:
@@ -636,15 +658,15 @@ class FreqTransform(Stream):
             d = P.circ(ip - mip)
             if not np.all(d <= 1e-9 * su):
                 i = int(np.argmax(~(d <= 1e-9 * su)))
-                return 'phase column %d sample %d: implementation %r, model %r (U=%r)' % (j, i, ip[i], mip[i], U[i, j])
+                return 'phase column %d sample %d: implementation %r, model %r (U=%r)' % (j, i, float(ip[i]), float(mip[i]), float(U[i, j]))
             d = np.abs(iff - mif)
             if not np.all(d <= 1e-9 * su * max(1.0, sr)):
                 i = int(np.argmax(~(d <= 1e-9 * su * max(1.0, sr))))
-                return 'frequency column %d sample %d: implementation %r, model %r' % (j, i, iff[i], mif[i])
+                return 'frequency column %d sample %d: implementation %r, model %r' % (j, i, float(iff[i]), float(mif[i]))
             if np.all(np.isfinite(A[:, j])):
                 if not np.array_equal(ia, mia):
                     i = int(np.argmax(ia != mia))
-                    return 'amplitude column %d sample %d: implementation %r, oracle table %r' % (j, i, ia[i], mia[i])
+                    return 'amplitude column %d sample %d: implementation %r, oracle table %r' % (j, i, float(ia[i]), float(mia[i]))
             elif not np.array_equal(np.isnan(ia), np.isnan(A[:, j])):
                 return 'amplitude column %d: NaN pattern differs from the envelope oracle' % j
         return None
@@ -672,7 +694,7 @@ class FreqTransform(Stream):
             return fs
         if not np.all((ip >= 0) & (ip <= TP)):
             i = np.argwhere(~((ip >= 0) & (ip <= TP)))[0]
-            fs.append(Failure('phase-out-of-range', 'IP[%d,%d] = %r not in [0, 2pi)' % (i[0], i[1], ip[i[0], i[1]])))
+            fs.append(Failure('phase-out-of-range', 'IP[%d,%d] = %r not in [0, 2pi)' % (i[0], i[1], float(ip[i[0], i[1]]))))
         # frequency = sr/(2pi) * d/dt unwrap(phase): central differences inside, one-sided at the ends
         u = np.unwrap(ip, axis=0)
         g = np.empty_like(u)
@@ -690,7 +712,7 @@ class FreqTransform(Stream):
             i = np.argwhere(bad)[0]
             fs.append(Failure('freq-not-derivative-of-phase',
                               'sample %d column %d: IF = %r but sr/(2pi)*gradient(unwrap(IP)) = %r'
-                              % (i[0], i[1], iff[i[0], i[1]], g[i[0], i[1]] * sr / (2.0 * np.pi))))
+                              % (i[0], i[1], float(iff[i[0], i[1]]), float(g[i[0], i[1]] * sr / (2.0 * np.pi)))))
         p2, rd = out['pow2'], out['rand']
         if case['method'] != 'hilbert' and not self._oscillatory(case):
             # a column without extrema is not an IMF: amplitude_normalise has no envelope to divide by and returns it
@@ -707,7 +729,7 @@ class FreqTransform(Stream):
         if rd['if'] > 1e-7 * max(1.0, sr):
             fs.append(Failure('scale-changes-frequency', 'x * %r: frequency differs by %g' % (case['c'], rd['if'])))
         if rd['ia'] > 1e-7 or not rd['nan_same']:
-            fs.append(Failure('amplitude-not-scaled', 'x * %r: amplitude / (c * original) - 1 = %g' % (case['c'], rd['ia'])))
+            fs.append(Failure('amplitude-not-scaled', 'x * %r: max |IA(c x) - c IA(x)| / max |c IA(x)| = %g' % (case['c'], rd['ia'])))
         return fs
 
     @staticmethod
@@ -728,6 +750,8 @@ class FreqTransform(Stream):
             if any(v is None for c in out['ia'] for v in c):
                 t.append('no-envelope(amplitude NaN)')
             t.append('smooth' if P.is_smooth(spec) else 'rough')
+            t.append('smooth_phase=%s' % (case.get('smooth', 'default'),))
+            t.append('dtype=' + spec.get('dtype', 'float'))
             if not self._oscillatory(case):
                 t.append('non-oscillatory(not an IMF)')
         else:
@@ -750,20 +774,117 @@ class FreqTransform(Stream):
             yield dict(case, spec=dict(spec, n=n - n // 2, cols=[dict(c, x=c['x'][n // 2:]) for c in spec['cols']]))
 
 
+# =============================================================================== phase_from_complex_signal
+
+JUMPS = {'ascending': np.pi / 2, 'peak': 0.0, 'descending': -(np.pi / 2), 'trough': np.pi}
+# phase of a*sin(theta) relative to theta for each jump convention (angle of the analytic signal is theta - pi/2)
+JUMP_REF = {'ascending': 0.0, 'peak': -np.pi / 2, 'descending': -np.pi, 'trough': np.pi / 2}
+
+
+class ComplexPhase(Stream):
+    """phase_from_complex_signal on the scipy analytic signal: offset + wrap against the model."""
+    name = 'phase_from_complex_signal'
+
+    def corpus(self):
+        return [{'spec': {'n': 256, 'sr': 128.0, 'cols': [{'kind': 'sine', 'f': 8.0, 'a': 1.0, 'ph': 0.5}]}, 'jump': j, 'ret': r, 'smoothing': 5}
+                for j in JUMPS for r in ('wrapped', 'unwrapped')]
+
+    def generate(self, rng, tier):
+        n_cases = 600 if tier == 'thorough' else 80
+        for _ in range(n_cases):
+            sr = rng.choice([64.0, 256.0, 1000.0])
+            n = rng.choice([64, 200, 400])
+            kinds = rng.choice([['sine'], ['sine'], ['chirp', 'amfm'], ['two'], ['noise']])
+            yield {'spec': {'n': n, 'sr': sr, 'cols': [_rand_col(rng, n, sr, kinds) for _ in range(rng.choice([1, 2, 3]))]},
+                   'jump': rng.choice(list(JUMPS)), 'ret': rng.choice(['wrapped', 'unwrapped']), 'smoothing': rng.choice([None, 5, 5])}
+
+    @staticmethod
+    def _analytic(case):
+        from scipy import signal
+        return signal.hilbert(P.synth(case['spec']), axis=0)
+
+    def impl(self, case):
+        import emd
+        ph = emd.spectra.phase_from_complex_signal(self._analytic(case), smoothing=case['smoothing'],
+                                                   ret_phase=case['ret'], phase_jump=case['jump'])
+        return {'shape': list(ph.shape), 'cols': [P.tolist(c) for c in P.cols(ph)]}
+
+    def _U(self, case):
+        import emd
+        return emd.spectra.phase_from_complex_signal(self._analytic(case), smoothing=case['smoothing'],
+                                                     ret_phase='unwrapped', phase_jump='peak')
+
+    def ops(self, case, out):
+        U = self._U(case)
+        return [proto.op('PCS', {'off': JUMPS[case['jump']], 'twopi': TP, 'wrapped': int(case['ret'] == 'wrapped')}, [list(U[:, j])])
+                for j in range(U.shape[1])]
+
+    def compare(self, case, out, results):
+        if _err(out):
+            return 'implementation raised %s: %s' % (out['error'], out['msg'][-100:])
+        U = self._U(case)
+        for j, r in enumerate(results):
+            if not r.ok:
+                return 'model answered %s' % r.raw[:80]
+            o, mv = np.array(out['cols'][j], dtype=float), P.model_vec(r.vecs[0])
+            tol = 1e-9 * max(1.0, float(np.max(np.abs(U[:, j]))))
+            d = P.circ(o - mv) if case['ret'] == 'wrapped' else np.abs(o - mv)
+            if len(o) != len(mv) or not np.all(d <= tol):
+                i = int(np.argmax(~(d <= tol)))
+                return '%s/%s column %d sample %d: implementation %r, model %r' % (case['jump'], case['ret'], j, i, float(o[i]), float(mv[i]))
+        return None
+
+    def holds(self, case, out):
+        if _err(out):
+            return [Failure('raises:' + out['error'], out['msg'])]
+        spec = case['spec']
+        n, sr = spec['n'], spec['sr']
+        if out['shape'] != [n, len(spec['cols'])]:
+            return [Failure('shape-mismatch', 'phase has shape %s' % out['shape'])]
+        fs = []
+        for j, c in enumerate(spec['cols']):
+            ph = np.array(out['cols'][j], dtype=float)
+            if case['ret'] == 'wrapped' and not np.all((ph >= 0) & (ph <= TP)):
+                fs.append(Failure('phase-out-of-range', 'wrapped phase outside [0, 2pi)'))
+                break
+            if c['kind'] == 'sine' and n * c['f'] / sr >= 8:
+                lo, hi = int(0.2 * n), int(0.8 * n)
+                th = 2 * np.pi * c['f'] * np.arange(n) / sr + c['ph'] + JUMP_REF[case['jump']]
+                e = float(np.median(P.circ(ph[lo:hi] - th[lo:hi])))
+                if e > 0.15:
+                    fs.append(Failure('phase-jump-misplaced:' + case['jump'],
+                                      'column %d: median distance from the %s-referenced phase of the sinusoid = %.3g rad' % (j, case['jump'], e)))
+                    break
+        return fs
+
+    def tags(self, case, out):
+        return ['jump=' + case['jump'], 'ret=' + case['ret'], 'smoothing=%s' % case['smoothing'], 'cols=%d' % len(case['spec']['cols'])]
+
+    def nontrivial(self, case, out):
+        return case['jump'] != 'peak' or case['ret'] == 'wrapped'
+
+
 # =============================================================================== sinusoid recovery (instance only)
 
 SRS = [128.0, 256.0, 500.0, 512.0, 1000.0, 1024.0, 2000.0]
 NS = [512, 1000, 1024, 2048, 3000, 4096]
 
 
-def sine_case(rng, method):
+def sine_case(rng, method, int_typed=False):
     sr, n = rng.choice(SRS), rng.choice(NS)
     cols = []
     for _ in range(rng.choice([1, 1, 2, 3])):
         fmin, fmax = 4 * sr / n, sr / 12
+        if int_typed:
+            fmin = max(fmin, sr / 48)     # keep the rounded peaks distinguishable (no long flat tops)
         f = math.exp(rng.uniform(math.log(fmin), math.log(fmax)))
         cols.append({'kind': 'sine', 'f': f, 'a': 10 ** rng.uniform(-1.5, 1.5), 'ph': rng.uniform(0, 2 * np.pi)})
-    return {'spec': {'n': n, 'sr': sr, 'cols': cols}, 'method': method}
+    spec = {'n': n, 'sr': sr, 'cols': cols}
+    if int_typed:       # integer-typed record of a large-amplitude sinusoid (quantisation error <= 0.5 / a)
+        for c in cols:
+            c['a'] = 10 ** rng.uniform(3, 4.5)
+        spec['dtype'] = 'int'
+    return {'spec': spec, 'method': method}
 
 
 class Sinusoid(Stream):
@@ -777,16 +898,17 @@ class Sinusoid(Stream):
             cs.append({'spec': {'n': 2048, 'sr': 1000.0, 'cols': [{'kind': 'sine', 'f': 83.0, 'a': 0.05, 'ph': 5.0},      # sr/12
                                                                    {'kind': 'sine', 'f': 2.1, 'a': 30.0, 'ph': 2.0},       # ~4.3 cycles
                                                                    {'kind': 'sine', 'f': 20.0, 'a': 1.0, 'ph': 3.14159}]}, 'method': m})
+            cs.append({'spec': {'n': 1024, 'sr': 256.0, 'dtype': 'int', 'cols': [{'kind': 'sine', 'f': 10.0, 'a': 1000.0, 'ph': 0.3}]}, 'method': m})
         return cs
 
     def generate(self, rng, tier):
-        n_cases = 2400 if tier == 'thorough' else 240
+        n_cases = 6000 if tier == 'thorough' else 480
         for i in range(n_cases):
-            yield sine_case(rng, P.METHODS[i % 3])
+            yield sine_case(rng, P.METHODS[i % 3], int_typed=rng.random() < 0.08)
 
     def impl(self, case):
         import emd
-        x = P.synth(case['spec'])
+        x = P.typed(case['spec'])
         x.setflags(write=False)
         sr = case['spec']['sr']
         ip, iff, ia = emd.spectra.frequency_transform(x, sr, case['method'])
@@ -809,6 +931,8 @@ class Sinusoid(Stream):
             cycles, spc = n * c['f'] / sr, sr / c['f']
             for stat in P.STATS:
                 tol = P.tolerance(m, cycles, spc, stat)
+                if spec.get('dtype') == 'int':
+                    tol += 20.0 / c['a']          # quantisation to integers (a >= 1000: at most 0.02)
                 v = st[stat]
                 if not (v <= tol):
                     kind = '%s-not-recovered:%s' % (names[stat[-1]], m)
@@ -819,7 +943,7 @@ class Sinusoid(Stream):
 
     def tags(self, case, out):
         spec = case['spec']
-        t = ['method=' + case['method'], 'cols=%d' % len(spec['cols'])]
+        t = ['method=' + case['method'], 'cols=%d' % len(spec['cols']), 'dtype=' + spec.get('dtype', 'float')]
         for c in spec['cols']:
             t.append('cycles-band=%d' % P.band(spec['n'] * c['f'] / spec['sr'], P.CYC_BANDS))
             t.append('spc-band=%d' % P.band(spec['sr'] / c['f'], P.SPC_BANDS))
@@ -842,21 +966,22 @@ class Quadrature(Stream):
 
     def corpus(self):
         return [{'spec': {'n': 64, 'sr': 64.0, 'cols': [{'kind': 'sine', 'f': 4.0, 'a': 2.0, 'ph': 0.3}]}, 'k': 4},
+                {'spec': {'n': 128, 'sr': 64.0, 'dtype': 'int', 'cols': [{'kind': 'sine', 'f': 4.0, 'a': 1000.0, 'ph': 0.3}]}, 'k': 3},
                 {'spec': {'n': 1, 'sr': 1.0, 'cols': [{'kind': 'data', 'x': [1.0]}]}, 'k': 1},
                 {'spec': {'n': 16, 'sr': 1.0, 'cols': [{'kind': 'data', 'x': [0.0] * 16}]}, 'k': 1}]
 
     def generate(self, rng, tier):
-        n_cases = 400 if tier == 'thorough' else 45
+        n_cases = 600 if tier == 'thorough' else 90
         for _ in range(n_cases):
             sr = rng.choice([64.0, 256.0, 1000.0])
             n = rng.choice([32, 100, 256, 400])
             kinds = rng.choice([['sine'], ['chirp', 'amfm'], ['two'], ['noise']])
-            yield {'spec': {'n': n, 'sr': sr, 'cols': [_rand_col(rng, n, sr, kinds) for _ in range(rng.choice([1, 2, 3]))]},
+            yield {'spec': _maybe_int(rng, {'n': n, 'sr': sr, 'cols': [_rand_col(rng, n, sr, kinds) for _ in range(rng.choice([1, 2, 3]))]}),
                    'k': rng.choice([-12, -2, 1, 5, 16])}
 
     def impl(self, case):
         import emd
-        x = P.synth(case['spec'])
+        x = P.typed(case['spec'])
         x0 = x.copy()
         x.setflags(write=False)
         q = emd.spectra.quadrature_transform(x)
@@ -921,7 +1046,8 @@ class Quadrature(Stream):
         return fs
 
     def tags(self, case, out):
-        return ['cols=%d' % len(case['spec']['cols'])] + sorted(set('kind=' + c['kind'] for c in case['spec']['cols'])) + \
+        return ['cols=%d' % len(case['spec']['cols']), 'dtype=' + case['spec'].get('dtype', 'float')] + \
+               sorted(set('kind=' + c['kind'] for c in case['spec']['cols'])) + \
                (['raises=' + out['error']] if _err(out) else [])
 
     def nontrivial(self, case, out):
@@ -945,21 +1071,24 @@ class Normalise(Stream):
                  'clip': False, 'max_iters': 3, 'k': 5, 'c': 7.3},
                 {'spec': {'n': 32, 'sr': 1.0, 'cols': [{'kind': 'data', 'x': [i / 32 for i in range(32)]}]},      # no extrema: returned unchanged
                  'clip': False, 'max_iters': 3, 'k': 2, 'c': 0.2},
-                {'spec': {'n': 128, 'sr': 64.0, 'cols': [{'kind': 'sine', 'f': 5.0, 'a': 0.01, 'ph': 1.0}]}, 'clip': True, 'max_iters': 0, 'k': 2, 'c': 0.2}]
+                {'spec': {'n': 128, 'sr': 64.0, 'cols': [{'kind': 'sine', 'f': 5.0, 'a': 0.01, 'ph': 1.0}]}, 'clip': True, 'max_iters': 0, 'k': 2, 'c': 0.2},
+                # integer-typed input: X / env used to be truncated back to integers (fixed: float copy)
+                {'spec': {'n': 128, 'sr': 64.0, 'dtype': 'int', 'cols': [{'kind': 'sine', 'f': 5.0, 'a': 1000.0, 'ph': 1.0}]},
+                 'clip': False, 'max_iters': 3, 'k': 2, 'c': 3.0}]
 
     def generate(self, rng, tier):
-        n_cases = 400 if tier == 'thorough' else 45
+        n_cases = 600 if tier == 'thorough' else 90
         for _ in range(n_cases):
             sr = rng.choice([64.0, 256.0, 1000.0])
             n = rng.choice([32, 100, 256, 400])
             kinds = rng.choice([['sine'], ['chirp', 'amfm'], ['amfm'], ['two'], ['noise']])
-            yield {'spec': {'n': n, 'sr': sr, 'cols': [_rand_col(rng, n, sr, kinds) for _ in range(rng.choice([1, 2, 3]))]},
+            yield {'spec': _maybe_int(rng, {'n': n, 'sr': sr, 'cols': [_rand_col(rng, n, sr, kinds) for _ in range(rng.choice([1, 2, 3]))]}),
                    'clip': rng.random() < 0.4, 'max_iters': rng.choice([3, 3, 3, 1, 2, 6]),
                    'k': rng.choice([-12, -2, 1, 5, 16]), 'c': 10 ** rng.uniform(-3, 3)}
 
     def impl(self, case):
         import emd
-        x = P.synth(case['spec'])
+        x = P.typed(case['spec'])
         x0 = x.copy()
         kw = {'clip': case['clip'], 'max_iters': case['max_iters']}
         y = emd.utils.amplitude_normalise(x, **kw)
@@ -1018,7 +1147,7 @@ class Normalise(Stream):
             d = np.abs(y - P.model_vec(r.vecs[0]))
             if not np.all(d <= 1e-9 * scale):
                 i = int(np.argmax(~(d <= 1e-9 * scale)))
-                return 'column %d sample %d: implementation %r, model %r (model iterations %s)' % (j, i, y[i], float(r.vecs[0][i]), r.args.get('iters'))
+                return 'column %d sample %d: implementation %r, model %r (model iterations %s)' % (j, i, float(y[i]), float(r.vecs[0][i]), r.args.get('iters'))
         return 'skip:near-threshold' if skip else None
 
     def _has_env(self, case):
@@ -1039,7 +1168,7 @@ class Normalise(Stream):
             return fs
         if not np.array_equal(np.sign(y), np.sign(x)):
             i = np.argwhere(np.sign(y) != np.sign(x))[0]
-            fs.append(Failure('normalise-changes-sign', 'sample %d column %d: input %r output %r' % (i[0], i[1], x[i[0], i[1]], y[i[0], i[1]])))
+            fs.append(Failure('normalise-changes-sign', 'sample %d column %d: input %r output %r' % (i[0], i[1], float(x[i[0], i[1]]), float(y[i[0], i[1]]))))
         if case['clip'] and np.max(np.abs(y)) > 1:
             fs.append(Failure('normalise-not-clipped', 'max |y| = %r' % float(np.max(np.abs(y)))))
         if not out['input_unchanged']:
@@ -1057,7 +1186,8 @@ class Normalise(Stream):
         return fs
 
     def tags(self, case, out):
-        t = ['clip=%d' % case['clip'], 'max_iters=%d' % case['max_iters'], 'cols=%d' % len(case['spec']['cols'])]
+        t = ['clip=%d' % case['clip'], 'max_iters=%d' % case['max_iters'], 'cols=%d' % len(case['spec']['cols']),
+             'dtype=' + case['spec'].get('dtype', 'float')]
         t += sorted(set('kind=' + c['kind'] for c in case['spec']['cols']))
         if not _err(out):
             has = self._has_env(case)
@@ -1085,7 +1215,7 @@ class UnwrapModel(Stream):
                 {'p': [k / 4 for k in (0, 9, 18, 2, 11, 20, 4, 30, -7, 60)]}]
 
     def generate(self, rng, tier):
-        n_cases = 600 if tier == 'thorough' else 70
+        n_cases = 1000 if tier == 'thorough' else 120
         for _ in range(n_cases):
             n = rng.choice([2, 3, 10, 50, 200])
             fam = rng.choice(['wrapped-slow', 'wrapped-fast', 'dyadic', 'unwrapped'])
@@ -1146,7 +1276,7 @@ class Assumptions(Stream):
                  'a': 2.5, 'b': -0.75, 'k': 6, 'c': 3.7}]
 
     def generate(self, rng, tier):
-        n_cases = 300 if tier == 'thorough' else 40
+        n_cases = 500 if tier == 'thorough' else 60
         for _ in range(n_cases):
             sr, n = rng.choice([64.0, 256.0, 1000.0]), rng.choice([32, 100, 256, 400, 1024])
             kinds = rng.choice([['sine'], ['chirp', 'amfm'], ['two'], ['noise'], ['sine', 'noise']])
@@ -1197,7 +1327,7 @@ class Assumptions(Stream):
         return sorted(set('kind=' + c['kind'] for c in case['spec']['cols']))
 
 
-STREAMS = [Wrap(), Conversions(), Roundtrip(), FreqTransform(), Sinusoid(), Quadrature(), Normalise(), UnwrapModel(), Assumptions()]
+STREAMS = [Wrap(), Conversions(), Roundtrip(), ComplexPhase(), FreqTransform(), Sinusoid(), Quadrature(), Normalise(), UnwrapModel(), Assumptions()]
 
 
 # =============================================================================== calibration of the recovery table
